@@ -10,6 +10,10 @@ void restrict_for_domain(GenConfig &gc, const DomainInfo &di) {
     gc.large = false;
     gc.huge = false;
   }
+  if (di.caps & CAP_BV) {
+    gc.large = false;
+    gc.huge = false;
+  }
 }
 
 void random_fixpo(Rng &r, Json &params) {
@@ -45,6 +49,7 @@ void configure_scheduler(RandomScheduler &s, const Case &c, const DomainInfo &di
   s.policy = (RandomScheduler::Policy)(c.pint("policy", 1) % 3);
   s.large = c.pbool("large") && !(di.caps & CAP_INT64);
   s.huge = c.pbool("huge") && !(di.caps & CAP_INT64);
+  s.bv = (di.caps & CAP_BV) != 0;
 }
 
 MachineConfig machine_config_for(const Case &c, const DomainInfo &di) {
@@ -54,6 +59,7 @@ MachineConfig machine_config_for(const Case &c, const DomainInfo &di) {
   mc.inter = c.pbool("inter_machine");
   mc.magnitude_bits = (di.caps & CAP_INT64) ? 40 : 120;
   mc.remake_outside = c.pbool("remake_outside");
+  mc.bv = (di.caps & CAP_BV) != 0;
   return mc;
 }
 
